@@ -103,7 +103,7 @@ def run(ctx):
     # ---------------------------------------------------------------- M2
     hists = []
     for n in ((4,) if quick else (2, 3, 4, 5, 6, 8)):
-        hists += gen_shapes(ctx, n, 9 if quick else 20, ctx.seed * 131 + n)
+        hists += gen_shapes(ctx, n, 9 if quick else 14, ctx.seed * 131 + n)
     ctx.rng.shuffle(hists)
     shapes = []
     variants = [(512, False, False), (512, True, True), (0, False, True), (5000, True, False)]   # bufsize, sync, batch
